@@ -1139,7 +1139,7 @@ def run_cases(ctx, drv, exe, blk, cases, oracle_every=1):
             kvm = dict(p.split("=", 1) for p in res.split()[1:] if "=" in p)
             k = kvm.get("k")
             ok_end = (k in ("1", "2") and kvm.get("done") == "1" and kvm.get("hdr") in ("0", "-1")) or \
-                     (k == "3" and kvm.get("rc") == "0") or (k == "5" and kvm.get("err") == "0,0")
+                     (k == "3" and (kvm.get("rc") == "0" or (kvm.get("rc") == "-1" and kvm.get("ec") == "0"))) or (k == "5" and kvm.get("err") == "0,0")
             if ok_end:
                 ctx.violation("a stream with more scans than the configured scan limit (%d) was processed to the end: the limit is not "
                               "enforced through this entry point: %s" % (SCANLIMIT, res[:300]),
@@ -1171,7 +1171,12 @@ def run_cases(ctx, drv, exe, blk, cases, oracle_every=1):
         for (line, kind), res in zip(ll_cases, lres):
             if res is None:
                 continue
-            exp = kind.split(":")[1]
+            if ":" in kind:
+                exp = kind.split(":")[1]
+            else:       # corpus / replay line: 2^(P-1) from the SOF3 precision byte
+                raw = bytes.fromhex(line.split()[-1])
+                j = raw.find(b"\xff\xc3")
+                exp = str(1 << (raw[j + 4] - 1)) if j >= 0 and j + 4 < len(raw) and raw[j + 4] >= 1 else "128"
             if res.startswith("ll ok"):
                 kvl = dict(p.split("=", 1) for p in res.split()[2:] if "=" in p)
                 if kvl.get("min") != exp or kvl.get("max") != exp:
